@@ -74,8 +74,10 @@ def evaluate(ctx, rng, tier, focus, budget, broken):
     ops, meta = [], []
     for h in cells:
         res = (h >> 52) & 15
-        for c in range(res, min(15, res + maxdepth) + 1):
-            ops.append(f"children {gen.hx(h)} {c}"); meta.append(("children", h, c))
+        for c in range(res, 16):
+            if c <= res + maxdepth:
+                ops.append(f"children {gen.hx(h)} {c}"); meta.append(("children", h, c))
+            # the closed forms at every depth (the enumeration above stops at maxdepth)
             ops.append(f"csize {gen.hx(h)} {c}"); meta.append(("csize", h, c))
             ops.append(f"center {gen.hx(h)} {c}"); meta.append(("center", h, c))
         for r in range(-2, 18):
@@ -132,7 +134,8 @@ def evaluate(ctx, rng, tier, focus, budget, broken):
             if a != f"ok {exp}":
                 viol_.append(viol("cellToChildrenSize", o, f"ok {exp}", a))
         elif kind == "center":
-            exp = gen.children(h, c)[0]
+            _, hbc, hds = gen.fields(h)
+            exp = gen.mkcell(c, hbc, hds[:res] + [0] * (c - res))
             if a != "ok " + gen.hx(exp):
                 viol_.append(viol("cellToCenterChild is not the first child", o, "ok " + gen.hx(exp), a))
         elif kind == "parent":
